@@ -526,7 +526,7 @@ func (f *Frame) cutLoop(L *Loop, invs []Clause) {
 		f.env[p] = saved[p]
 	}
 	f.clearInner(L)
-	c.W.stats.cut++
+	c.W.stat(func() { c.W.stats.cut++ })
 }
 
 func (f *Frame) assumeAllocated(v *Val) {
